@@ -83,7 +83,7 @@ def gen_site(rng: random.Random, scratch: str, name_classes=("plain", "spaces", 
         t.file(p, data)
         m.add(b"/" + p, "doc", data, mime=MIME_BY_EXT[ext], tags=["file", "name:" + cls, "ext:" + ext])
         if rng.random() < 0.25:
-            t.file(p + b".abstract", "About this file\nsecond line")
+            t.file(p + b".abstract", rng.choice(["About this file\nsecond line", "A tab\tinside the abstract\nand a second line"]))
     # a directory with UMN metadata
     t.dir("umn")
     m.add(b"/umn", "menu", tags=["dir", "umn"])
